@@ -1,3 +1,699 @@
 package main
 
-func unpackMain(args []string) {}
+// c08 unpack: Go built-ins that call starlark.UnpackArgs / UnpackPositionalArgs
+// with typed targets pre-filled with sentinels, for every parameter list of the
+// bounded product (<= 3 parameters x marker name/name?/name?? x target kind)
+// and call shapes (0..4 positional, named subsets of declared and undeclared
+// names, duplicates as a **dict would append them) x argument types.  Reports
+// the error class and what every target holds afterwards; compares with a
+// per-parameter specification written here independently (specUnpack).
+
+import (
+	"flag"
+	"fmt"
+	"math/big"
+	"strconv"
+	"strings"
+
+	"go.starlark.net/starlark"
+
+	"verifharness/internal/hx"
+)
+
+type uParam struct {
+	Name   string
+	Marker string // "plain" "opt" "optnone"
+	Kind   string // value string bool int int8 float list dict callable iterable
+}
+
+func (p uParam) raw() string {
+	switch p.Marker {
+	case "opt":
+		return p.Name + "?"
+	case "optnone":
+		return p.Name + "??"
+	}
+	return p.Name
+}
+
+// an argument value, described
+type uArg struct {
+	T  string `json:"t"` // none bool int float string list dict tuple func
+	Z  string `json:"z,omitempty"`
+	ID int    `json:"id"`
+}
+
+var sentList = starlark.NewList([]starlark.Value{starlark.String("PREV")})
+var sentDict = starlark.NewDict(1)
+var sentFunc = starlark.NewBuiltin("PREV", func(*starlark.Thread, *starlark.Builtin, starlark.Tuple, []starlark.Tuple) (starlark.Value, error) {
+	return starlark.None, nil
+})
+var sentIter = starlark.Tuple{starlark.String("PREV")}
+var sentVal = starlark.String("PREV")
+var lenFn = starlark.Universe["len"]
+
+type tgt struct {
+	v  starlark.Value
+	s  string
+	b  bool
+	i  int
+	i8 int8
+	f  float64
+	l  *starlark.List
+	d  *starlark.Dict
+	c  starlark.Callable
+	it starlark.Iterable
+}
+
+func newTgt() *tgt {
+	return &tgt{v: sentVal, s: "PREV", b: false, i: -777, i8: -77, f: -7.5, l: sentList, d: sentDict, c: sentFunc, it: sentIter}
+}
+
+func (t *tgt) ptr(kind string) any {
+	switch kind {
+	case "value":
+		return &t.v
+	case "string":
+		return &t.s
+	case "bool":
+		return &t.b
+	case "int":
+		return &t.i
+	case "int8":
+		return &t.i8
+	case "float":
+		return &t.f
+	case "list":
+		return &t.l
+	case "dict":
+		return &t.d
+	case "callable":
+		return &t.c
+	case "iterable":
+		return &t.it
+	}
+	panic(kind)
+}
+
+func mkArg(a uArg) starlark.Value {
+	switch a.T {
+	case "none":
+		return starlark.None
+	case "bool":
+		return starlark.True
+	case "int":
+		z, _ := new(big.Int).SetString(a.Z, 10)
+		return starlark.MakeBigInt(z)
+	case "float":
+		return starlark.Float(float64(a.ID) + 0.5)
+	case "string":
+		return starlark.String("s" + strconv.Itoa(a.ID))
+	case "list":
+		return starlark.NewList([]starlark.Value{starlark.MakeInt(a.ID)})
+	case "dict":
+		d := starlark.NewDict(1)
+		d.SetKey(starlark.MakeInt(a.ID), starlark.None)
+		return d
+	case "tuple":
+		return starlark.Tuple{starlark.MakeInt(a.ID)}
+	case "func":
+		return lenFn
+	}
+	panic(a.T)
+}
+
+func describeVal(v starlark.Value) uArg {
+	switch v := v.(type) {
+	case starlark.NoneType:
+		return uArg{T: "none"}
+	case starlark.Bool:
+		return uArg{T: "bool"}
+	case starlark.Int:
+		return uArg{T: "int", Z: v.String()}
+	case starlark.Float:
+		return uArg{T: "float", ID: int(float64(v) - 0.5)}
+	case starlark.String:
+		n, _ := strconv.Atoi(strings.TrimPrefix(string(v), "s"))
+		return uArg{T: "string", ID: n}
+	case *starlark.List:
+		n, _ := starlark.AsInt32(v.Index(0))
+		return uArg{T: "list", ID: n}
+	case *starlark.Dict:
+		n, _ := starlark.AsInt32(v.Keys()[0])
+		return uArg{T: "dict", ID: n}
+	case starlark.Tuple:
+		n, _ := starlark.AsInt32(v[0])
+		return uArg{T: "tuple", ID: n}
+	case *starlark.Builtin:
+		return uArg{T: "func"}
+	}
+	return uArg{T: "?" + v.Type()}
+}
+
+// what a target holds: nil = previous content
+func (t *tgt) read(kind string) *uArg {
+	switch kind {
+	case "value":
+		if t.v == starlark.Value(sentVal) {
+			return nil
+		}
+		a := describeVal(t.v)
+		return &a
+	case "string":
+		if t.s == "PREV" {
+			return nil
+		}
+		n, _ := strconv.Atoi(strings.TrimPrefix(t.s, "s"))
+		return &uArg{T: "string", ID: n}
+	case "bool":
+		if !t.b {
+			return nil
+		}
+		return &uArg{T: "bool"}
+	case "int":
+		if t.i == -777 {
+			return nil
+		}
+		return &uArg{T: "int", Z: strconv.Itoa(t.i)}
+	case "int8":
+		if t.i8 == -77 {
+			return nil
+		}
+		return &uArg{T: "int", Z: strconv.Itoa(int(t.i8))}
+	case "float":
+		if t.f == -7.5 {
+			return nil
+		}
+		return &uArg{T: "float", ID: int(t.f - 0.5)}
+	case "list":
+		if t.l == sentList {
+			return nil
+		}
+		a := describeVal(t.l)
+		return &a
+	case "dict":
+		if t.d == sentDict {
+			return nil
+		}
+		a := describeVal(t.d)
+		return &a
+	case "callable":
+		if b, ok := t.c.(*starlark.Builtin); ok && b == sentFunc {
+			return nil
+		}
+		a := describeVal(t.c)
+		return &a
+	case "iterable":
+		if tu, ok := t.it.(starlark.Tuple); ok && len(tu) == 1 && tu[0] == starlark.Value(starlark.String("PREV")) {
+			return nil
+		}
+		a := describeVal(t.it)
+		return &a
+	}
+	panic(kind)
+}
+
+type uOutcome struct {
+	Err     string  `json:"err"` // "" toomany toofew kwargs unexpected multiple missing badarg other:...
+	I       int     `json:"i"`
+	Targets []*uArg `json:"targets"`
+}
+
+type uKw struct {
+	K string
+	A uArg
+}
+
+// ------------------------------------------------ independent specification
+func accepts(kind string, a uArg) bool {
+	switch kind {
+	case "value":
+		return true
+	case "string":
+		return a.T == "string"
+	case "bool":
+		return a.T == "bool"
+	case "int", "int8":
+		if a.T != "int" {
+			return false
+		}
+		z, _ := new(big.Int).SetString(a.Z, 10)
+		lo, hi := big.NewInt(-128), big.NewInt(127)
+		if kind == "int" {
+			lo = new(big.Int).Neg(new(big.Int).Lsh(big.NewInt(1), 63))
+			hi = new(big.Int).Sub(new(big.Int).Lsh(big.NewInt(1), 63), big.NewInt(1))
+		}
+		return z.Cmp(lo) >= 0 && z.Cmp(hi) <= 0
+	case "float":
+		return a.T == "float"
+	case "list":
+		return a.T == "list"
+	case "dict":
+		return a.T == "dict"
+	case "callable":
+		return a.T == "func"
+	case "iterable":
+		return a.T == "list" || a.T == "dict" || a.T == "tuple"
+	}
+	return false
+}
+
+// specUnpack: per parameter. Delivery order: positional arguments in order, then
+// keyword arguments in call order; the first delivery that cannot be made stops
+// the call and earlier deliveries stay.
+func specUnpack(ps []uParam, args []uArg, kw []uKw) uOutcome {
+	targets := make([]*uArg, len(ps))
+	if len(args) > len(ps) {
+		return uOutcome{Err: "toomany", Targets: targets}
+	}
+	given := make([]bool, len(ps))
+	deliver := func(i int, a uArg) bool {
+		p := ps[i]
+		if p.Marker == "optnone" && a.T == "none" {
+			return true
+		}
+		if !accepts(p.Kind, a) {
+			return false
+		}
+		c := a
+		targets[i] = &c
+		return true
+	}
+	for i, a := range args {
+		given[i] = true
+		if !deliver(i, a) {
+			return uOutcome{Err: "badarg", I: i, Targets: targets}
+		}
+	}
+	for _, e := range kw {
+		idx := -1
+		for i, p := range ps {
+			if p.Name == e.K {
+				idx = i
+				break
+			}
+		}
+		if idx < 0 {
+			return uOutcome{Err: "unexpected", Targets: targets}
+		}
+		if given[idx] {
+			return uOutcome{Err: "multiple", Targets: targets}
+		}
+		given[idx] = true
+		if !deliver(idx, e.A) {
+			return uOutcome{Err: "badarg", I: idx, Targets: targets}
+		}
+	}
+	for i, p := range ps {
+		if p.Marker != "plain" {
+			break
+		}
+		if !given[i] {
+			return uOutcome{Err: "missing", I: i, Targets: targets}
+		}
+	}
+	return uOutcome{Targets: targets}
+}
+
+func specPositional(min int, kinds []string, args []uArg, nkw int) uOutcome {
+	targets := make([]*uArg, len(kinds))
+	switch {
+	case nkw > 0:
+		return uOutcome{Err: "kwargs", Targets: targets}
+	case len(args) < min:
+		return uOutcome{Err: "toofew", Targets: targets}
+	case len(args) > len(kinds):
+		return uOutcome{Err: "toomany", Targets: targets}
+	}
+	for i, a := range args {
+		if !accepts(kinds[i], a) {
+			return uOutcome{Err: "badarg", I: i, Targets: targets}
+		}
+		c := a
+		targets[i] = &c
+	}
+	return uOutcome{Targets: targets}
+}
+
+// ------------------------------------------------------------- the real thing
+func classifyUnpack(err error, ps []uParam) (string, int) {
+	m := err.Error()
+	switch {
+	case strings.Contains(m, "unexpected keyword arguments"):
+		return "kwargs", 0
+	case strings.Contains(m, "want at most"):
+		return "toomany", 0
+	case strings.Contains(m, "want at least"):
+		return "toofew", 0
+	case strings.Contains(m, "for parameter "):
+		rest := m[strings.Index(m, "for parameter ")+len("for parameter "):]
+		name := strings.Trim(rest[:strings.Index(rest, ":")], "\"")
+		if n, err := strconv.Atoi(name); err == nil && ps == nil {
+			return "badarg", n - 1
+		}
+		for i, p := range ps {
+			if p.Name == name {
+				return "badarg", i
+			}
+		}
+		return "other:" + m, 0
+	case strings.Contains(m, "got multiple values"):
+		return "multiple", 0
+	case strings.Contains(m, "unexpected keyword argument"):
+		return "unexpected", 0
+	case strings.Contains(m, "missing argument for "):
+		name := m[strings.Index(m, "missing argument for ")+len("missing argument for "):]
+		for i, p := range ps {
+			if p.raw() == name {
+				return "missing", i
+			}
+		}
+		return "other:" + m, 0
+	case strings.Contains(m, "arguments, want "):
+		var got, want int
+		i := strings.Index(m, "got ")
+		fmt.Sscanf(m[i:], "got %d arguments, want %d", &got, &want)
+		if got < want {
+			return "toofew", 0
+		}
+		return "toomany", 0
+	}
+	return "other:" + m, 0
+}
+
+func sameU(a, b uOutcome) bool {
+	if a.Err != b.Err || len(a.Targets) != len(b.Targets) {
+		return false
+	}
+	if (a.Err == "badarg" || a.Err == "missing") && a.I != b.I {
+		return false
+	}
+	for i := range a.Targets {
+		x, y := a.Targets[i], b.Targets[i]
+		if (x == nil) != (y == nil) {
+			return false
+		}
+		if x != nil && (x.T != y.T || x.Z != y.Z || x.ID != y.ID) {
+			return false
+		}
+	}
+	return true
+}
+
+func runUnpack(thread *starlark.Thread, ps []uParam, args []uArg, kw []uKw) uOutcome {
+	ts := make([]*tgt, len(ps))
+	pairs := make([]any, 0, 2*len(ps))
+	for i, p := range ps {
+		ts[i] = newTgt()
+		pairs = append(pairs, p.raw(), ts[i].ptr(p.Kind))
+	}
+	b := starlark.NewBuiltin("u", func(_ *starlark.Thread, b *starlark.Builtin, a starlark.Tuple, k []starlark.Tuple) (starlark.Value, error) {
+		return starlark.None, starlark.UnpackArgs("u", a, k, pairs...)
+	})
+	at := make(starlark.Tuple, len(args))
+	for i, a := range args {
+		at[i] = mkArg(a)
+	}
+	var kt []starlark.Tuple
+	for _, e := range kw {
+		kt = append(kt, starlark.Tuple{starlark.String(e.K), mkArg(e.A)})
+	}
+	_, err := starlark.Call(thread, b, at, kt)
+	out := uOutcome{Targets: make([]*uArg, len(ps))}
+	if err != nil {
+		out.Err, out.I = classifyUnpack(err, ps)
+	}
+	for i, p := range ps {
+		out.Targets[i] = ts[i].read(p.Kind)
+	}
+	return out
+}
+
+func runPositional(thread *starlark.Thread, min int, kinds []string, args []uArg, nkw int) uOutcome {
+	ts := make([]*tgt, len(kinds))
+	vars := make([]any, len(kinds))
+	for i, k := range kinds {
+		ts[i] = newTgt()
+		vars[i] = ts[i].ptr(k)
+	}
+	b := starlark.NewBuiltin("p", func(_ *starlark.Thread, b *starlark.Builtin, a starlark.Tuple, k []starlark.Tuple) (starlark.Value, error) {
+		return starlark.None, starlark.UnpackPositionalArgs("p", a, k, min, vars...)
+	})
+	at := make(starlark.Tuple, len(args))
+	for i, a := range args {
+		at[i] = mkArg(a)
+	}
+	var kt []starlark.Tuple
+	for i := 0; i < nkw; i++ {
+		kt = append(kt, starlark.Tuple{starlark.String("k"), starlark.None})
+	}
+	_, err := starlark.Call(thread, b, at, kt)
+	out := uOutcome{Targets: make([]*uArg, len(kinds))}
+	if err != nil {
+		out.Err, out.I = classifyUnpack(err, nil)
+	}
+	for i, k := range kinds {
+		out.Targets[i] = ts[i].read(k)
+	}
+	return out
+}
+
+// ------------------------------------------------------------------- generator
+var argPool = []uArg{
+	{T: "none"}, {T: "bool"}, {T: "int", Z: "5"}, {T: "int", Z: "1000"}, {T: "int", Z: "1180591620717411303424"}, // 1<<70
+	{T: "float"}, {T: "string"}, {T: "list"}, {T: "dict"}, {T: "tuple"}, {T: "func"},
+}
+
+func pickArg(r *hx.Rand, kind string, id int) uArg {
+	// half of the time an argument its parameter accepts, otherwise any type
+	var a uArg
+	if kind != "" && r.Intn(2) == 0 {
+		for tries := 0; tries < 20; tries++ {
+			a = argPool[r.Intn(len(argPool))]
+			if accepts(kind, a) {
+				break
+			}
+		}
+	} else {
+		a = argPool[r.Intn(len(argPool))]
+	}
+	switch a.T {
+	case "float", "string", "list", "dict", "tuple":
+		a.ID = id
+	case "int":
+		if a.Z == "5" {
+			a.Z = strconv.Itoa(1 + id) // distinct small ints
+		} else if a.Z == "1000" {
+			a.Z = strconv.Itoa(1000 + id)
+		}
+	}
+	return a
+}
+
+type uCase struct {
+	Kind  string      `json:"kind"` // ucase pcase
+	Ps    [][3]string `json:"ps,omitempty"`
+	Min   int         `json:"min"`
+	Kinds []string    `json:"kinds,omitempty"`
+	Args  []uArg      `json:"args"`
+	Kw    [][2]any    `json:"kw"`
+	NKw   int         `json:"nkw"`
+	Obs   uOutcome    `json:"obs"`
+	Spec  uOutcome    `json:"gospec"`
+	Bad   bool        `json:"mismatch"`
+	Coq   bool        `json:"coq"`
+}
+
+func unpackMain(argv []string) {
+	fs := flag.NewFlagSet("unpack", flag.ExitOnError)
+	seed := fs.Uint64("seed", 1, "seed")
+	frac := fs.Float64("frac", 1.0, "fraction of parameter lists executed")
+	ncoq := fs.Int("coq", 2000, "cases printed for Coq")
+	full := fs.Bool("full", false, "all 10 target kinds (default: 6)")
+	fs.Parse(argv)
+	r := hx.NewRand(*seed)
+	kinds := []string{"value", "int", "string", "bool", "list", "int8"}
+	if *full {
+		kinds = []string{"value", "int", "string", "bool", "list", "int8", "float", "dict", "callable", "iterable"}
+	}
+	markers := []string{"plain", "opt", "optnone"}
+	names := []string{"x", "y", "z"}
+	// all parameter lists
+	var lists [][]uParam
+	var rec func(cur []uParam)
+	rec = func(cur []uParam) {
+		lists = append(lists, append([]uParam{}, cur...))
+		if len(cur) == 3 {
+			return
+		}
+		for _, m := range markers {
+			for _, k := range kinds {
+				rec(append(cur, uParam{names[len(cur)], m, k}))
+			}
+		}
+	}
+	rec(nil)
+	thread := &starlark.Thread{Name: "c08u"}
+	total, mism := 0, 0
+	dist := map[string]int{}
+	var printed []*uCase
+	thr := uint64(*frac * float64(1<<32))
+	// expected number of cases, to size the Coq sample
+	perList := 5 * 16 * 5 * 3
+	expect := float64(len(lists)) * *frac * float64(perList) / 2
+	pcoq := float64(*ncoq) / (expect + 1)
+	mismKeys := map[string]int{}
+	for li, ps := range lists {
+		if *frac < 1 && mix(*seed, uint64(li))&0xffffffff >= thr {
+			continue
+		}
+		uni := []string{}
+		for _, p := range ps {
+			uni = append(uni, p.Name)
+		}
+		uni = append(uni, "w")
+		for npos := 0; npos <= 4; npos++ {
+			for mask := 0; mask < 1<<len(uni); mask++ {
+				// duplicates: none, a declared name again, the undeclared name again
+				dups := []string{""}
+				if len(ps) > 0 {
+					dups = append(dups, ps[0].Name, ps[len(ps)-1].Name)
+				}
+				dups = append(dups, "w")
+				for _, dup := range dups {
+					for rep := 0; rep < 3; rep++ {
+						id := 1
+						var args []uArg
+						for i := 0; i < npos; i++ {
+							k := ""
+							if i < len(ps) {
+								k = ps[i].Kind
+							}
+							args = append(args, pickArg(r, k, id))
+							id++
+						}
+						var kw []uKw
+						kindOf := func(n string) string {
+							for _, p := range ps {
+								if p.Name == n {
+									return p.Kind
+								}
+							}
+							return ""
+						}
+						for i, n := range uni {
+							if mask&(1<<i) != 0 {
+								kw = append(kw, uKw{n, pickArg(r, kindOf(n), id)})
+								id++
+							}
+						}
+						if rep == 1 && len(kw) > 1 { // other order
+							kw[0], kw[len(kw)-1] = kw[len(kw)-1], kw[0]
+						}
+						if dup != "" {
+							kw = append(kw, uKw{dup, pickArg(r, kindOf(dup), id)})
+							id++
+						}
+						obs := runUnpack(thread, ps, args, kw)
+						spec := specUnpack(ps, args, kw)
+						total++
+						cls := obs.Err
+						if cls == "" {
+							cls = "ok"
+						} else if strings.HasPrefix(cls, "other:") {
+							cls = "other"
+						}
+						dist["UnpackArgs:"+cls]++
+						bad := !sameU(obs, spec)
+						w := 1.0
+						if cls == "ok" || cls == "badarg" || cls == "missing" {
+							w = 4
+						}
+						coq := float64(r.Uint64()>>11)/float64(1<<53) < pcoq*w
+						if bad {
+							mism++
+							key := obs.Err + "/" + spec.Err
+							mismKeys[key]++
+							if mismKeys[key] > 3 {
+								continue
+							}
+						}
+						if bad || coq {
+							c := &uCase{Kind: "ucase", Args: args, Obs: obs, Spec: spec, Bad: bad, Coq: true, Kw: [][2]any{}}
+							if c.Args == nil {
+								c.Args = []uArg{}
+							}
+							for _, p := range ps {
+								c.Ps = append(c.Ps, [3]string{p.Name, p.Marker, p.Kind})
+							}
+							for _, e := range kw {
+								c.Kw = append(c.Kw, [2]any{e.K, e.A})
+							}
+							printed = append(printed, c)
+						}
+					}
+				}
+			}
+		}
+	}
+	// UnpackPositionalArgs: kinds lists of length 0..3, min 0..len, 0..4 arguments, with/without kwargs
+	var klists [][]string
+	var krec func(cur []string)
+	krec = func(cur []string) {
+		klists = append(klists, append([]string{}, cur...))
+		if len(cur) == 3 {
+			return
+		}
+		for _, k := range kinds {
+			krec(append(cur, k))
+		}
+	}
+	krec(nil)
+	for _, ks := range klists {
+		for min := 0; min <= len(ks); min++ {
+			for npos := 0; npos <= 4; npos++ {
+				for nkw := 0; nkw <= 1; nkw++ {
+					for rep := 0; rep < 2; rep++ {
+						var args []uArg
+						for i := 0; i < npos; i++ {
+							k := ""
+							if i < len(ks) {
+								k = ks[i]
+							}
+							args = append(args, pickArg(r, k, i+1))
+						}
+						obs := runPositional(thread, min, ks, args, nkw)
+						spec := specPositional(min, ks, args, nkw)
+						total++
+						cls := obs.Err
+						if cls == "" {
+							cls = "ok"
+						} else if strings.HasPrefix(cls, "other:") {
+							cls = "other"
+						}
+						dist["UnpackPositionalArgs:"+cls]++
+						bad := !sameU(obs, spec)
+						if bad {
+							mism++
+						}
+						if bad || float64(r.Uint64()>>11)/float64(1<<53) < 0.3*float64(*ncoq)/25000 {
+							c := &uCase{Kind: "pcase", Min: min, Kinds: ks, Args: args, NKw: nkw, Obs: obs, Spec: spec, Bad: bad, Coq: true, Kw: [][2]any{}}
+							if c.Args == nil {
+								c.Args = []uArg{}
+							}
+							if c.Kinds == nil {
+								c.Kinds = []string{}
+							}
+							printed = append(printed, c)
+						}
+					}
+				}
+			}
+		}
+	}
+	for _, c := range printed {
+		hx.Emit(c)
+	}
+	hx.Emit(map[string]any{"kind": "usummary", "lists": len(lists), "cases": total, "mismatches": mism, "dist": dist, "frac": *frac, "kinds": kinds})
+	hx.Flush()
+}
